@@ -126,7 +126,7 @@ impl StateMachine<'_> {
                 // borrow checker won't permit that.
                 let style = Style::from_colors(
                     None,
-                    color::parse_color(&color, true, self.config.git_config()),
+                    color::parse_color(&color, self.config.true_color, self.config.git_config()),
                 );
                 self.blame_key_colors.insert(key.to_owned(), color);
                 style
